@@ -385,6 +385,44 @@ def elision(ctx, rule="C02.elision"):
     ctx.floor(rule, 10)
 
 
+def pure_decompose(ctx, rule="C02.pure-decompose"):
+    ctx.explain(f"{rule}: _decompose / decompose of every operation class is a function of (parameters, reg, options): it "
+                "stores nothing in `self` (no attribute assignment, no item store, no mutator call on an attribute) - a "
+                "memoised command list would carry the registers, and the Command objects, of the first call into every later "
+                "application of the same operation object.")
+    ops = op_classes(ctx.tree)
+    from ..dataflow import MUTATORS
+    n = 0
+    for cn, c in sorted(ops.items()):
+        for mn in ("_decompose", "decompose"):
+            f = c.methods.get(mn)
+            if f is None:
+                continue
+            n += 1
+            bad = None
+            for x in walk_no_nested(f.node):
+                tg = []
+                if isinstance(x, ast.Assign):
+                    tg = x.targets
+                elif isinstance(x, (ast.AugAssign, ast.AnnAssign)):
+                    tg = [x.target]
+                elif isinstance(x, ast.Call) and isinstance(x.func, ast.Attribute) and x.func.attr in MUTATORS | {"setdefault"}:
+                    tg = [x.func.value]
+                elif isinstance(x, ast.Call) and dotted(x.func) == "setattr" and x.args and dotted(x.args[0]) == "self":
+                    bad = x
+                for t_ in tg:
+                    r_ = t_
+                    while isinstance(r_, ast.Subscript) or isinstance(r_, ast.Attribute) and not isinstance(r_.value, ast.Name):
+                        r_ = r_.value
+                    if isinstance(r_, ast.Attribute) and isinstance(r_.value, ast.Name) and r_.value.id == "self" and \
+                            (t_ is not r_ or isinstance(x, (ast.Assign, ast.AugAssign, ast.AnnAssign)) or True):
+                        bad = x
+            ctx.ob(rule, f.site, bad is None, "" if bad is None else f"`{ast.unparse(bad)[:60]}` stores state in the operation object "
+                   "while decomposing: later decompositions of the same object can return commands built for another register",
+                   role="no-self-store", line=(bad.lineno if bad is not None else f.node.lineno))
+    ctx.floor(rule, 15)
+
+
 def product_units(ctx, rule="C02.product-units"):
     Hb.ops_frontend(ctx, rule, only_classes=("Xgate", "Zgate", "Gaussian", "Vgate"))
     ctx.floor(rule, 4)
@@ -397,4 +435,5 @@ def rules(ctx):
     mesh_table(ctx)
     driver(ctx)
     elision(ctx)
+    pure_decompose(ctx)
     product_units(ctx)
